@@ -41,6 +41,9 @@ type Foreign struct {
 	NoteRels         bool `json:"note_rels,omitempty"`         // the footnotes (or endnotes) part gets a hyperlink note and its own relationship part
 	DirEntries       bool `json:"dir_entries,omitempty"`       // directory entries in the zip, as zip tools write them
 	OpenPath         bool `json:"open_path,omitempty"`         // opened with document.Open from a file instead of OpenFromMemory
+	// second widening (foreign3.go)
+	Glossary int `json:"glossary,omitempty"` // 1-3: a glossary document (word/glossary/document.xml, named from the main document) with its own styles/settings/fontTable parts and relationship part (3: without one; 2: absolute target, own external hyperlink)
+	DupRels  int `json:"dup_rels,omitempty"` // bit mask: 1 an image part, 2 a header/footer part is the target of TWO relationships of the same type (one per use), the later use refers to the second one; 4: the second one directly follows the first instead of being last
 }
 
 // Info is what the transformation did (for labels and for known-finding triggers).
@@ -59,6 +62,9 @@ type Info struct {
 	MultiSect     bool   // a paragraph-level sectPr with header/footer references was inserted
 	AbsTargets    int    // relationships whose target was written in absolute form
 	Straddle9     bool   // ids rId9 and rId10 (or rId99 and rId100) both occur
+	GlossaryPart  string // glossary document part that was added ("" = none)
+	DupRels       int    // relationships added as a second relationship to the target of an existing one
+	DupRedirected int    // ... of which a reference of the body was moved to
 }
 
 func (i *Info) Tag() string {
@@ -97,6 +103,7 @@ const (
 
 type frel struct {
 	old, id, typ, target, mode string
+	dupOf                      string // old id of the relationship this one repeats (same type, same target)
 }
 
 func escAttr(s string) string {
@@ -253,6 +260,8 @@ func Transform(b []byte, f *Foreign) ([]byte, *Info, error) {
 			others = append(others, frel{old: "\x00ms", typ: opc.RelPrefix + "header", target: "header9.xml"})
 		}
 	}
+	addGlossary(f, parts, addOverride, &others, have, info)
+	others = addDupRels(f, others, info)
 	// 4. external hyperlink
 	doc := string(parts["word/document.xml"])
 	if f.Hyperlink {
@@ -417,6 +426,7 @@ func Transform(b []byte, f *Foreign) ([]byte, *Info, error) {
 		}
 		return m
 	})
+	doc = redirectToDups(doc, others, ren, info)
 	if f.Hyperlink {
 		doc = strings.Replace(doc, "<w:body>", `<w:body><w:p><w:hyperlink r:id="`+escAttr(hlID)+`" w:history="1"><w:r><w:t>link</w:t></w:r></w:hyperlink></w:p>`, 1)
 	}
